@@ -6,7 +6,10 @@
   Quantification: `ops` is *any* finite history — for the singleton pool any sequence of
   requests, pool Open()/Close() calls, completions (success or failure) of a pending open and
   faults of any sink, in any order (so requests, Open() and Close() may arrive while the first
-  open is still in progress); for the ref-counted sink any sequence of Open/Close by any
+  open is still in progress), where a pool Close() may run over an underlying Close() that calls
+  a caller back who re-submits through the pool from inside it (`pcloseR`, `cresumeR`) or that
+  yields and stays suspended while further operations arrive (`pcloseY` … `cresume`); for the
+  ref-counted sink any sequence of Open/Close by any
   holders and faults of the underlying sink; for the provider any sequence of CreateSink calls
   with any keys by any holders, of holders calling Open()/Close() on what they hold, of holders
   dropping their reference, and of transport faults of any underlying sink (so CreateSink may
@@ -89,29 +92,38 @@ theorem C16_singleton_shares_concurrent (ops : List SOp) (k : Nat)
   rw [hn] at this
   simpa using this.symm
 
-/-- Every hand-over to a sink, in every step of every history, goes to the sink that was the
-    pool's current sink, and every other sink is closed at that moment: requests are never
-    spread over two connections. -/
+/-- Every hand-over to a sink, in every step of every history, goes to the pool's current sink
+    — the sink in the slot after the step, which is the one that was in the slot before it unless
+    the step is a `Close()` with a request arriving from inside the underlying `Close()` (then it
+    is the fresh sink that request created) — and every other sink is closed at that moment:
+    requests are never spread over two connections. -/
 theorem C16_singleton_forward_target (ops : List SOp) (op : SOp) (r k : Nat)
     (h : (r, some k) ∈ ((Pool.run {} ops).step op).2) :
-    (Pool.run {} ops).next = some k ∧
+    ((Pool.run {} ops).step op).1.next = some k ∧
+    ((Pool.run {} ops).next = some k ∨ ∃ r', op = .pcloseR r') ∧
     ∀ i s, ((Pool.run {} ops).step op).1.sinks[i]? = some s → i ≠ k → s.st = .closed := by
   have hi := run_inv ops PInv.init
   generalize Pool.run {} ops = p at hi h
-  have hs := step_ok hi op
-  rcases hs.fw with ⟨hf, _⟩ | ⟨k', hk', _, hsame, _, hf, htgt⟩
-  · rw [hf] at h; cases h
-  · rw [hf] at h
-    simp only [List.mem_map, Prod.mk.injEq] at h
-    obtain ⟨_, _, _, hnx⟩ := h
-    have hkk : k' = k := by
-      rcases htgt with h1 | ⟨h1, _, _⟩
-      · rw [h1] at hnx; simpa using hnx
-      · rw [h1] at hnx; cases hnx
-    subst hkk
-    refine ⟨hk', fun i s hs' hik => ?_⟩
-    rw [hsame i hik] at hs'
-    exact hi.others i s hs' (by rw [hk']; simpa using fun h => hik h.symm)
+  have hinv := step_inv hi op
+  have key : (p.step op).1.next = some k ∧ (p.next = some k ∨ ∃ r', op = .pcloseR r') := by
+    rcases step_ok hi op with hs | ⟨k', r', hop, _, _, hp', hf⟩
+    · rcases hs.fw with ⟨hf, _⟩ | ⟨k', hk', _, _, _, hf, htgt⟩
+      · rw [hf] at h; cases h
+      · rw [hf] at h
+        simp only [List.mem_map, Prod.mk.injEq] at h
+        obtain ⟨_, _, _, hnx⟩ := h
+        rcases htgt with h1 | ⟨h1, _, _⟩
+        · have hkk : k' = k := by rw [h1] at hnx; simpa using hnx
+          subst hkk
+          exact ⟨h1, Or.inl hk'⟩
+        · rw [h1] at hnx; cases hnx
+    · rw [hf] at h
+      simp only [List.mem_map, Prod.mk.injEq, Option.some.injEq] at h
+      obtain ⟨_, _, _, hnx⟩ := h
+      subst hnx
+      exact ⟨by rw [hp'], Or.inr ⟨r', hop⟩⟩
+  refine ⟨key.1, key.2, fun i s hs' hik => ?_⟩
+  exact hinv.others i s hs' (by rw [key.1]; simpa using fun h => hik h.symm)
 
 /-- The one way a request leaves the pool without being handed to a sink (the real code does
     this: `_Get` re-reads `next_sink` after waiting for the open; outside what C16 demands): it
@@ -119,23 +131,25 @@ theorem C16_singleton_forward_target (ops : List SOp) (op : SOp) (r k : Nat)
     every other step of every history every request that leaves `_Get` is handed to a sink. -/
 theorem C16_singleton_lost_only_when_closed_during_open (ops : List SOp) (op : SOp) (r : Nat)
     (h : (r, none) ∈ ((Pool.run {} ops).step op).2) :
-    op = .pclose ∧ r ∈ reqsOf (Pool.run {} ops).waiters ∧
+    (op = .pclose ∨ op = .pcloseY) ∧ r ∈ reqsOf (Pool.run {} ops).waiters ∧
     ((Pool.run {} ops).step op).1.next = none ∧
     liveCount ((Pool.run {} ops).step op).1.sinks = 0 := by
   have hi := run_inv ops PInv.init
   generalize Pool.run {} ops = p at hi h
-  have hs := step_ok hi op
-  rcases hs.fw with ⟨hf, _⟩ | ⟨k', _, _, _, _, hf, htgt⟩
-  · rw [hf] at h; cases h
+  rcases step_ok hi op with hs | ⟨_, _, _, _, _, _, hf⟩
+  · rcases hs.fw with ⟨hf, _⟩ | ⟨k', _, _, _, _, hf, htgt⟩
+    · rw [hf] at h; cases h
+    · rw [hf] at h
+      simp only [List.mem_map, Prod.mk.injEq] at h
+      obtain ⟨r', hr', rfl, hnx⟩ := h
+      rcases htgt with h1 | ⟨h1, hcl, hac⟩
+      · rw [h1] at hnx; cases hnx
+      · have hop : op = .pclose ∨ op = .pcloseY := by cases op <;> simp [isClose] at hcl ⊢
+        refine ⟨hop, ?_, h1, ?_⟩
+        · rcases hop with hop | hop <;> subst hop <;> simpa [opReq] using hr'
+        · rw [liveCount_eq_zero_iff]; exact hac
   · rw [hf] at h
-    simp only [List.mem_map, Prod.mk.injEq] at h
-    obtain ⟨r', hr', rfl, hnx⟩ := h
-    rcases htgt with h1 | ⟨h1, hcl, hac⟩
-    · rw [h1] at hnx; cases hnx
-    · have hop : op = .pclose := by cases op <;> simp [isClose] at hcl ⊢
-      subst hop
-      refine ⟨rfl, by simpa [opReq] using hr', h1, ?_⟩
-      rw [liveCount_eq_zero_iff]; exact hac
+    simp at h
 
 /-- A sink that fails — a fault of the current sink at any time, or the failure of its pending
     open — leaves no live sink. -/
@@ -186,6 +200,58 @@ theorem C16_singleton_replaces_failed (ops : List SOp) (r : Nat)
       exact get_closed _ hn hs (h _ (List.getElem_mem hlt))
   rw [show p.step (.req r) = p.get (.req r) from rfl, hg]
   exact ⟨rfl, rfl, by simp [Pool.create], rfl⟩
+
+/-- **A request arriving during `Close()`.**  The last holder closes the pool (`rc ≤ 1`, sink `k`
+    in the slot) and, while the underlying `Close()` of sink `k` is still running, a request
+    reaches the pool — (a) re-entrantly, from a caller whose in-flight request that `Close()` has
+    just failed (`pcloseR r`), or (b) from another greenlet while that `Close()` is suspended at a
+    yield (`pcloseY`, then `req r`).  In both cases the history ends with exactly one live
+    connection, and it is the pool's: a fresh sink `n` (the only sink created), in the slot,
+    being opened, with request `r` waiting for it; everything handed over in that step goes to
+    it.  The end of the suspended `Close()` (`cresume`) then changes nothing, and a request
+    re-submitted at that point (`cresumeR`) is an ordinary request — it shares sink `n`. -/
+theorem C16_singleton_request_during_close (ops : List SOp) (r k : Nat)
+    (hk : (Pool.run {} ops).next = some k) (hrc : (Pool.run {} ops).rc ≤ 1) :
+    (∀ q f, (q, f) = (Pool.run {} ops).step (.pcloseR r) ∨
+            (q, f) = ((Pool.run {} ops).step .pcloseY).1.step (.req r) →
+      q.sinks.length = (Pool.run {} ops).sinks.length + 1 ∧
+      q.next = some (Pool.run {} ops).sinks.length ∧
+      (∃ s, q.sinks[(Pool.run {} ops).sinks.length]? = some s ∧ s.live = true ∧ s.opens = 1) ∧
+      liveCount q.sinks = 1 ∧
+      ⟨.req r, (Pool.run {} ops).sinks.length⟩ ∈ q.waiters ∧
+      (∀ x ∈ f, x.2 = some (Pool.run {} ops).sinks.length)) ∧
+    (∀ (q : Pool) (j r' : Nat), q.step (.cresume j) = (q, []) ∧
+      q.step (.cresumeR j r') = q.step (.req r')) := by
+  have hi := run_inv ops PInv.init
+  generalize Pool.run {} ops = p at hi hk hrc
+  have hrc' : p.rc - 1 ≤ 0 := by omega
+  have hcl : allClosed (upd p.sinks k USink.callClose) :=
+    allClosed_upd_next hi hk _ (fun s => by simp [USink.callClose, USink.shut])
+  have hlive : liveCount (upd p.sinks k USink.callClose ++ [freshSink]) = 1 := by
+    have := (liveCount_eq_zero_iff _).2 hcl
+    simp only [liveCount, List.countP_append] at this ⊢
+    rw [this]; rfl
+  refine ⟨?_, fun q j r' => ⟨rfl, rfl⟩⟩
+  intro q f hq
+  rcases hq with hq | hq
+  · have he : p.step (.pcloseR r) = p.closeR r := rfl
+    rw [he, closeR_main hi r hk hrc'] at hq
+    cases hq
+    refine ⟨by simp [upd_length], rfl, ⟨freshSink, by simp [upd_length], rfl, rfl⟩, hlive,
+      by simp, ?_⟩
+    intro x hx
+    simp only [List.mem_map] at hx
+    obtain ⟨_, _, rfl⟩ := hx
+    rfl
+  · have he : (p.step .pcloseY).1 = p.close.1 := rfl
+    obtain ⟨h1, h2⟩ := close_main hk hrc'
+    rw [he, show p.close.1.step (.req r) = p.close.1.get (.req r) from rfl, get_none _ h1] at hq
+    cases hq
+    refine ⟨by simp [Pool.create, h2, upd_length], by simp [Pool.create, h2, upd_length],
+      ⟨freshSink, by simp [Pool.create, h2, upd_length, freshSink], rfl, rfl⟩, ?_,
+      by simp [Pool.create, h2, upd_length], fun x hx => by cases hx⟩
+    simp only [Pool.create, h2]
+    exact hlive
 
 /-! ## RefCountedSink -/
 
@@ -440,6 +506,16 @@ example : isPending (Pool.run {} [.req 1, .req 2]) 0 = true := by decide
 example : ((Pool.run {} [.req 1, .req 2]).step (.ok 0)).2 = [(1, some 0), (2, some 0)] := by decide
 -- the pool is closed while a request waits for the open: the request is handed to nobody
 example : ((Pool.run {} [.popen, .req 1]).step .pclose).2 = [(1, none)] := by decide
+-- the last holder closes the pool over an open sink; request 2 arrives from inside the underlying
+-- Close(), or from another greenlet while that Close() is suspended: sink 1 is created, is the
+-- pool's, and is the only live one
+example : (Pool.run {} [.req 1, .ok 0]).next = some 0 ∧ (Pool.run {} [.req 1, .ok 0]).rc ≤ 1 := by decide
+example : ((Pool.run {} [.req 1, .ok 0]).step (.pcloseR 2)).1.next = some 1 ∧
+    liveCount ((Pool.run {} [.req 1, .ok 0]).step (.pcloseR 2)).1.sinks = 1 := by decide
+example : (Pool.run {} [.req 1, .ok 0, .pcloseY, .req 2, .cresume 0]).next = some 1 ∧
+    liveCount (Pool.run {} [.req 1, .ok 0, .pcloseY, .req 2, .cresume 0]).sinks = 1 := by decide
+-- … and the greenlets that were waiting for the closed sink's open are handed to the fresh sink
+example : ((Pool.run {} [.req 1]).step (.pcloseR 2)).2 = [(1, some 1)] := by decide
 -- after a fault of the open sink nothing is live; the next request creates sink 1
 example : liveCount (Pool.run {} [.req 1, .ok 0, .fault 0]).sinks = 0 := by decide
 example : ((Pool.run {} [.req 1, .ok 0, .fault 0]).step (.req 2)).1.next = some 1 := by decide
